@@ -67,6 +67,11 @@ func ParseDecimal(b []byte) (float64, int) {
 	} else if -22 <= exp && exp < 0 { // int / 10^k
 		return f / float64pow10[-exp], i
 	}
+	if exp < -300 {
+		// math.Pow10 is imprecise below 1e-308 (subnormal) and zero below 1e-323
+		f *= 1e-300
+		exp += 300
+	}
 	return f * math.Pow10(exp), i
 }
 
